@@ -16,21 +16,21 @@ theorem replicate_blank_append (n k : Nat) :
   simp [List.replicate_append_replicate]
 
 /-- Rows of a paired entry whose minus line takes `x` rows and whose plus line takes `y` rows. -/
-theorem entry_pair (sl sr : List St) (l r L R x y : Nat) (hx : 1 ≤ x) (hy : 1 ≤ y)
+theorem entry_pair (sl sr : List St) (rl rr : List Bool) (l r L R x y : Nat) (hx : 1 ≤ x) (hy : 1 ≤ y)
     (hl0 : sl[L]? = some .minus) (hlc : ∀ t, 1 ≤ t → t < x → sl[L + t]? = some .minusWrapped)
     (hr0 : sr[R]? = some .plus) (hrc : ∀ t, 1 ≤ t → t < y → sr[R + t]? = some .plusWrapped)
     (h1 : l + 2 ≤ usizeMax) (h2 : r + 1 ≤ usizeMax) :
-    ∃ rows, sbsRows ⟨l, r⟩ sl sr (paired L R (min x y) ++ leftOnly (L + y) (x - y) ++ rightOnly (R + x) (y - x))
+    ∃ rows, sbsRows ⟨l, r⟩ sl sr rl rr (paired L R (min x y) ++ leftOnly (L + y) (x - y) ++ rightOnly (R + x) (y - x))
         = .ok (⟨l + 1, r + 1⟩, rows) ∧
       rows.map SbsRow.shown = some (some l, some r) :: List.replicate (max x y - 1) (some (none, none)) := by
   obtain ⟨k, hk⟩ : ∃ k, min x y = k + 1 := ⟨min x y - 1, by omega⟩
-  have hfirst := row_pair_first l r L R sl sr hl0 hr0 (by omega) h2
-  obtain ⟨rows1, hr1, hs1⟩ := rows_pair_cont sl sr (l + 1) (r + 1) k (L + 1) (R + 1)
+  have hfirst := row_pair_first l r L R sl sr (rawAt rl (some L)) (rawAt rr (some R)) hl0 hr0 (by omega) h2
+  obtain ⟨rows1, hr1, hs1⟩ := rows_pair_cont sl sr rl rr (l + 1) (r + 1) k (L + 1) (R + 1)
     (fun t ht => by have := hlc (t + 1) (by omega) (by omega); rwa [show L + (t + 1) = L + 1 + t by omega] at this)
     (fun t ht => by have := hrc (t + 1) (by omega) (by omega); rwa [show R + (t + 1) = R + 1 + t by omega] at this)
-  obtain ⟨rows2, hr2, hs2⟩ := rows_left_cont sl sr (l + 1) (r + 1) (by omega) (x - y) (L + y)
+  obtain ⟨rows2, hr2, hs2⟩ := rows_left_cont sl sr rl rr (l + 1) (r + 1) (by omega) (x - y) (L + y)
     (fun t ht => by have := hlc (y + t) (by omega) (by omega); rwa [show L + (y + t) = L + y + t by omega] at this)
-  obtain ⟨rows3, hr3, hs3⟩ := rows_right_cont sl sr (l + 1) (r + 1) (by omega) (y - x) (R + x)
+  obtain ⟨rows3, hr3, hs3⟩ := rows_right_cont sl sr rl rr (l + 1) (r + 1) (by omega) (y - x) (R + x)
     (fun t ht => by have := hrc (x + t) (by omega) (by omega); rwa [show R + (x + t) = R + x + t by omega] at this)
   refine ⟨(⟨some ⟨true, false, some l, none⟩, some ⟨false, true, none, some r⟩⟩ : SbsRow) :: (rows1 ++ (rows2 ++ rows3)), ?_, ?_⟩
   · rw [hk, List.append_assoc]
@@ -45,28 +45,28 @@ theorem entry_pair (sl sr : List St) (l r L R x y : Nat) (hx : 1 ≤ x) (hy : 1 
     omega
 
 /-- Rows of an unpaired minus line taking `x` rows. -/
-theorem entry_left (sl sr : List St) (l r L x : Nat) (hx : 1 ≤ x)
+theorem entry_left (sl sr : List St) (rl rr : List Bool) (l r L x : Nat) (hx : 1 ≤ x)
     (hl0 : sl[L]? = some .minus) (hlc : ∀ t, 1 ≤ t → t < x → sl[L + t]? = some .minusWrapped)
     (h1 : l + 2 ≤ usizeMax) :
-    ∃ rows, sbsRows ⟨l, r⟩ sl sr (leftOnly L x) = .ok (⟨l + 1, r⟩, rows) ∧
+    ∃ rows, sbsRows ⟨l, r⟩ sl sr rl rr (leftOnly L x) = .ok (⟨l + 1, r⟩, rows) ∧
       rows.map SbsRow.shown = some (some l, none) :: List.replicate (x - 1) (some (none, none)) := by
   obtain ⟨k, rfl⟩ : ∃ k, x = k + 1 := ⟨x - 1, by omega⟩
-  have hfirst := row_left_first l r L sl sr hl0 (by omega)
-  obtain ⟨rows1, hr1, hs1⟩ := rows_left_cont sl sr (l + 1) r (by omega) k (L + 1)
+  have hfirst := row_left_first l r L sl sr (rawAt rl (some L)) (rawAt rr none) hl0 (by omega)
+  obtain ⟨rows1, hr1, hs1⟩ := rows_left_cont sl sr rl rr (l + 1) r (by omega) k (L + 1)
     (fun t ht => by have := hlc (t + 1) (by omega) (by omega); rwa [show L + (t + 1) = L + 1 + t by omega] at this)
   refine ⟨(⟨some ⟨true, false, some l, none⟩, some ⟨false, true, some l, none⟩⟩ : SbsRow) :: rows1, ?_, ?_⟩
   · simp only [leftOnly, sbsRows, hfirst, hr1]
   · simp [hs1, SbsRow.shown, Cell.left, Cell.right]
 
 /-- Rows of an unpaired plus line taking `y` rows. -/
-theorem entry_right (sl sr : List St) (l r R y : Nat) (hy : 1 ≤ y)
+theorem entry_right (sl sr : List St) (rl rr : List Bool) (l r R y : Nat) (hy : 1 ≤ y)
     (hr0 : sr[R]? = some .plus) (hrc : ∀ t, 1 ≤ t → t < y → sr[R + t]? = some .plusWrapped)
     (h2 : r + 1 ≤ usizeMax) :
-    ∃ rows, sbsRows ⟨l, r⟩ sl sr (rightOnly R y) = .ok (⟨l, r + 1⟩, rows) ∧
+    ∃ rows, sbsRows ⟨l, r⟩ sl sr rl rr (rightOnly R y) = .ok (⟨l, r + 1⟩, rows) ∧
       rows.map SbsRow.shown = some (none, some r) :: List.replicate (y - 1) (some (none, none)) := by
   obtain ⟨k, rfl⟩ : ∃ k, y = k + 1 := ⟨y - 1, by omega⟩
-  have hfirst := row_right_first l r R sl sr hr0 h2
-  obtain ⟨rows1, hr1, hs1⟩ := rows_right_cont sl sr l (r + 1) (by omega) k (R + 1)
+  have hfirst := row_right_first l r R sl sr (rawAt rl none) (rawAt rr (some R)) hr0 h2
+  obtain ⟨rows1, hr1, hs1⟩ := rows_right_cont sl sr rl rr l (r + 1) (by omega) k (R + 1)
     (fun t ht => by have := hrc (t + 1) (by omega) (by omega); rwa [show R + (t + 1) = R + 1 + t by omega] at this)
   refine ⟨(⟨some ⟨true, false, none, some r⟩, some ⟨false, true, none, some r⟩⟩ : SbsRow) :: rows1, ?_, ?_⟩
   · simp only [rightOnly, sbsRows, hfirst, hr1]
@@ -85,23 +85,23 @@ theorem wrapped_block (a c m p : Nat) (wl wr : List Nat)
     (hwl : wl.length = m) (hwr : wr.length = p)
     (hposl : ∀ x ∈ wl, 1 ≤ x) (hposr : ∀ y ∈ wr, 1 ≤ y)
     (hbl : a + m + 1 ≤ usizeMax) (hbr : c + p ≤ usizeMax) :
-    ∀ (al : Alignment) (i j : Nat) (preL preR : List St),
+    ∀ (al : Alignment) (i j : Nat) (preL preR : List St) (rl rr : List Bool),
       validFrom al i j = some (m, p) →
       ∃ al' sl sr,
         wrapBlock wl wr al i j preL.length preR.length = .ok (al', sl, sr) ∧
         ∀ postL postR, ∃ rows,
-          sbsRows ⟨a + i, c + j⟩ (preL ++ (sl ++ postL)) (preR ++ (sr ++ postR)) al'
+          sbsRows ⟨a + i, c + j⟩ (preL ++ (sl ++ postL)) (preR ++ (sr ++ postR)) rl rr al'
             = .ok (⟨a + m, c + p⟩, rows) ∧
           rows.map SbsRow.shown = (al.flatMap (entrySpec a c wl wr)).map some := by
   intro al
   induction al with
   | nil =>
-    intro i j preL preR hv
+    intro i j preL preR rl rr hv
     simp only [validFrom, Option.some.injEq, Prod.mk.injEq] at hv
     obtain ⟨rfl, rfl⟩ := hv
     exact ⟨[], [], [], rfl, fun _ _ => ⟨[], rfl, rfl⟩⟩
   | cons e rest ih =>
-    intro i j preL preR hv
+    intro i j preL preR rl rr hv
     obtain ⟨mi, pi⟩ := e
     cases mi with
     | none =>
@@ -117,14 +117,14 @@ theorem wrapped_block (a c m p : Nat) (wl wr : List Nat)
           have hyp : y < wr.length := by omega
           have hw : wr[y]? = some wr[y] := by simp [hyp]
           have hpos : 1 ≤ wr[y] := hposr _ (List.getElem_mem hyp)
-          obtain ⟨al', sl, sr, hwb, hrows⟩ := ih i (y + 1) preL (preR ++ segStates (4, 5) wr[y]) hv
+          obtain ⟨al', sl, sr, hwb, hrows⟩ := ih i (y + 1) preL (preR ++ segStates (4, 5) wr[y]) rl rr hv
           rw [List.length_append, segStates_length] at hwb
           refine ⟨rightOnly preR.length wr[y] ++ al', sl, segStates (4, 5) wr[y] ++ sr, ?_, ?_⟩
           · simp [wrapBlock, hw, hwb, wrapStates_right]
           · intro postL postR
             obtain ⟨rows2, hr2, hs2⟩ := hrows postL postR
             obtain ⟨rows1, hr1, hs1⟩ := entry_right (preL ++ (sl ++ postL))
-              (preR ++ ((segStates (4, 5) wr[y] ++ sr) ++ postR)) (a + i) (c + y) preR.length wr[y] hpos
+              (preR ++ ((segStates (4, 5) wr[y] ++ sr) ++ postR)) rl rr (a + i) (c + y) preR.length wr[y] hpos
               (by rw [List.append_assoc]; exact seg_first preR _ 4 5 wr[y] hpos)
               (fun t h1 h2 => by rw [List.append_assoc]; exact seg_cont preR _ 4 5 wr[y] t h1 h2)
               (by omega)
@@ -149,14 +149,14 @@ theorem wrapped_block (a c m p : Nat) (wl wr : List Nat)
           have hxp : x < wl.length := by omega
           have hw : wl[x]? = some wl[x] := by simp [hxp]
           have hpos : 1 ≤ wl[x] := hposl _ (List.getElem_mem hxp)
-          obtain ⟨al', sl, sr, hwb, hrows⟩ := ih (x + 1) j (preL ++ segStates (0, 1) wl[x]) preR hv
+          obtain ⟨al', sl, sr, hwb, hrows⟩ := ih (x + 1) j (preL ++ segStates (0, 1) wl[x]) preR rl rr hv
           rw [List.length_append, segStates_length] at hwb
           refine ⟨leftOnly preL.length wl[x] ++ al', segStates (0, 1) wl[x] ++ sl, sr, ?_, ?_⟩
           · simp [wrapBlock, hw, hwb, wrapStates_left]
           · intro postL postR
             obtain ⟨rows2, hr2, hs2⟩ := hrows postL postR
             obtain ⟨rows1, hr1, hs1⟩ := entry_left (preL ++ ((segStates (0, 1) wl[x] ++ sl) ++ postL))
-              (preR ++ (sr ++ postR)) (a + x) (c + j) preL.length wl[x] hpos
+              (preR ++ (sr ++ postR)) rl rr (a + x) (c + j) preL.length wl[x] hpos
               (by rw [List.append_assoc]; exact seg_first preL _ 0 1 wl[x] hpos)
               (fun t h1 h2 => by rw [List.append_assoc]; exact seg_cont preL _ 0 1 wl[x] t h1 h2)
               (by omega)
@@ -185,7 +185,7 @@ theorem wrapped_block (a c m p : Nat) (wl wr : List Nat)
           have hposx : 1 ≤ wl[x] := hposl _ (List.getElem_mem hxp)
           have hposy : 1 ≤ wr[y] := hposr _ (List.getElem_mem hyp)
           obtain ⟨al', sl, sr, hwb, hrows⟩ :=
-            ih (x + 1) (y + 1) (preL ++ segStates (0, 1) wl[x]) (preR ++ segStates (4, 5) wr[y]) hv
+            ih (x + 1) (y + 1) (preL ++ segStates (0, 1) wl[x]) (preR ++ segStates (4, 5) wr[y]) rl rr hv
           rw [List.length_append, segStates_length, List.length_append, segStates_length] at hwb
           refine ⟨paired preL.length preR.length (min wl[x] wr[y]) ++ leftOnly (preL.length + wr[y]) (wl[x] - wr[y])
               ++ rightOnly (preR.length + wl[x]) (wr[y] - wl[x]) ++ al',
@@ -194,7 +194,7 @@ theorem wrapped_block (a c m p : Nat) (wl wr : List Nat)
           · intro postL postR
             obtain ⟨rows2, hr2, hs2⟩ := hrows postL postR
             obtain ⟨rows1, hr1, hs1⟩ := entry_pair (preL ++ ((segStates (0, 1) wl[x] ++ sl) ++ postL))
-              (preR ++ ((segStates (4, 5) wr[y] ++ sr) ++ postR)) (a + x) (c + y) preL.length preR.length wl[x] wr[y]
+              (preR ++ ((segStates (4, 5) wr[y] ++ sr) ++ postR)) rl rr (a + x) (c + y) preL.length preR.length wl[x] wr[y]
               hposx hposy
               (by rw [List.append_assoc]; exact seg_first preL _ 0 1 wl[x] hposx)
               (fun t h1 h2 => by rw [List.append_assoc]; exact seg_cont preL _ 0 1 wl[x] t h1 h2)
@@ -225,11 +225,11 @@ theorem getElem?_getD_ones (wl : List Nat) (h : ∀ x ∈ wl, x = 1) (i : Nat) :
   have := getD_ones wl h i
   simpa [List.getD] using this
 
-theorem unwrapped_rows (a c m p : Nat) (wl wr : List Nat)
+theorem unwrapped_rows (a c m p : Nat) (wl wr : List Nat) (rl rr : List Bool)
     (hl1 : ∀ x ∈ wl, x = 1) (hr1 : ∀ y ∈ wr, y = 1)
     (hbl : a + m ≤ usizeMax) (hbr : c + p ≤ usizeMax) :
     ∀ (al : Alignment) (i j : Nat), validFrom al i j = some (m, p) →
-      ∃ rows, sbsRows ⟨a + i, c + j⟩ (List.replicate m .minus) (List.replicate p .plus) al
+      ∃ rows, sbsRows ⟨a + i, c + j⟩ (List.replicate m .minus) (List.replicate p .plus) rl rr al
           = .ok (⟨a + m, c + p⟩, rows) ∧
         rows.map SbsRow.shown = (al.flatMap (entrySpec a c wl wr)).map some := by
   intro al
@@ -253,7 +253,7 @@ theorem unwrapped_rows (a c m p : Nat) (wl wr : List Nat)
           subst hy
           have hle := validFrom_le rest i (y + 1) m p hv
           obtain ⟨rows, hr, hs⟩ := ih i (y + 1) hv
-          have hrow := row_right_first (a + i) (c + y) y (List.replicate m .minus) (List.replicate p .plus)
+          have hrow := row_right_first (a + i) (c + y) y (List.replicate m .minus) (List.replicate p .plus) (rawAt rl none) (rawAt rr (some y))
             (by simp [List.getElem?_replicate]; omega) (by omega)
           refine ⟨(⟨some ⟨true, false, none, some (c + y)⟩, some ⟨false, true, none, some (c + y)⟩⟩ : SbsRow) :: rows, ?_, ?_⟩
           · simp only [sbsRows, hrow]
@@ -269,7 +269,7 @@ theorem unwrapped_rows (a c m p : Nat) (wl wr : List Nat)
           subst hx
           have hle := validFrom_le rest (x + 1) j m p hv
           obtain ⟨rows, hr, hs⟩ := ih (x + 1) j hv
-          have hrow := row_left_first (a + x) (c + j) x (List.replicate m .minus) (List.replicate p .plus)
+          have hrow := row_left_first (a + x) (c + j) x (List.replicate m .minus) (List.replicate p .plus) (rawAt rl (some x)) (rawAt rr none)
             (by simp [List.getElem?_replicate]; omega) (by omega)
           refine ⟨(⟨some ⟨true, false, some (a + x), none⟩, some ⟨false, true, some (a + x), none⟩⟩ : SbsRow) :: rows, ?_, ?_⟩
           · simp only [sbsRows, hrow]
@@ -285,7 +285,7 @@ theorem unwrapped_rows (a c m p : Nat) (wl wr : List Nat)
           subst hy
           have hle := validFrom_le rest (x + 1) (y + 1) m p hv
           obtain ⟨rows, hr, hs⟩ := ih (x + 1) (y + 1) hv
-          have hrow := row_pair_first (a + x) (c + y) x y (List.replicate m .minus) (List.replicate p .plus)
+          have hrow := row_pair_first (a + x) (c + y) x y (List.replicate m .minus) (List.replicate p .plus) (rawAt rl (some x)) (rawAt rr (some y))
             (by simp [List.getElem?_replicate]; omega) (by simp [List.getElem?_replicate]; omega)
             (by omega) (by omega)
           refine ⟨(⟨some ⟨true, false, some (a + x), none⟩, some ⟨false, true, none, some (c + y)⟩⟩ : SbsRow) :: rows, ?_, ?_⟩
@@ -297,15 +297,15 @@ theorem unwrapped_rows (a c m p : Nat) (wl wr : List Nat)
 /-- `paint_minus_and_plus_lines_side_by_side` on one subhunk: true numbers on first rows, none on
     continuation rows and on the empty half of unpaired rows; the counters advance by exactly
     `(m, p)`. -/
-theorem sbsBlock_spec (a c m p : Nat) (al : Alignment) (wl wr : List Nat)
+theorem sbsBlock_spec (a c m p : Nat) (al : Alignment) (wl wr : List Nat) (rl rr : List Bool)
     (hv : validFrom al 0 0 = some (m, p)) (hwl : wl.length = m) (hwr : wr.length = p)
     (hposl : ∀ x ∈ wl, 1 ≤ x) (hposr : ∀ y ∈ wr, 1 ≤ y)
     (hbl : a + m + 1 ≤ usizeMax) (hbr : c + p ≤ usizeMax) :
-    ∃ rows, sbsBlock ⟨a, c⟩ m p al wl wr = .ok (⟨a + m, c + p⟩, rows) ∧
+    ∃ rows, sbsBlock ⟨a, c⟩ m p al wl wr rl rr = .ok (⟨a + m, c + p⟩, rows) ∧
       rows.map SbsRow.shown = (sbsSpec a c al wl wr).map some := by
   unfold sbsBlock
   by_cases hw : (wl.any (· ≠ 1) || wr.any (· ≠ 1)) = true
-  · obtain ⟨al', sl, sr, hwb, hrows⟩ := wrapped_block a c m p wl wr hwl hwr hposl hposr hbl hbr al 0 0 [] [] hv
+  · obtain ⟨al', sl, sr, hwb, hrows⟩ := wrapped_block a c m p wl wr hwl hwr hposl hposr hbl hbr al 0 0 [] [] [] [] hv
     obtain ⟨rows, hr, hs⟩ := hrows [] []
     simp only [List.length_nil] at hwb
     simp only [List.nil_append, List.append_nil, Nat.add_zero] at hr
@@ -320,7 +320,7 @@ theorem sbsBlock_spec (a c m p : Nat) (al : Alignment) (wl wr : List Nat)
       by_cases h1 : y = 1
       · exact h1
       · exact absurd (by simp; exact Or.inr ⟨y, hy, h1⟩) hw
-    obtain ⟨rows, hr, hs⟩ := unwrapped_rows a c m p wl wr hl1 hr1 (by omega) hbr al 0 0 hv
+    obtain ⟨rows, hr, hs⟩ := unwrapped_rows a c m p wl wr rl rr hl1 hr1 (by omega) hbr al 0 0 hv
     simp only [Nat.add_zero] at hr
     exact ⟨rows, by rw [if_neg hw]; exact hr, hs⟩
 
@@ -357,21 +357,21 @@ theorem zeroSbs_spec (l r rows : Nat) (h1 : l + 1 ≤ usizeMax) (h2 : r + 1 ≤ 
 
 def Block.old : Block → Nat
   | .zero _ => 1
-  | .sub m _ _ _ _ => m
+  | .sub m _ _ _ _ _ _ => m
 
 def Block.new : Block → Nat
   | .zero _ => 1
-  | .sub _ p _ _ _ => p
+  | .sub _ p _ _ _ _ _ => p
 
 /-- Well-formed block: the alignment uses every line once and in order; one row count ≥ 1 per line. -/
 def Block.wf : Block → Prop
   | .zero _ => True
-  | .sub m p al wl wr => validFrom al 0 0 = some (m, p) ∧ wl.length = m ∧ wr.length = p ∧
+  | .sub m p al wl wr _ _ => validFrom al 0 0 = some (m, p) ∧ wl.length = m ∧ wr.length = p ∧
       (∀ x ∈ wl, 1 ≤ x) ∧ (∀ y ∈ wr, 1 ≤ y)
 
 def blockSpec (a c : Nat) : Block → List (Option Nat × Option Nat)
   | .zero rows => (some a, some c) :: List.replicate (rows - 1) (none, none)
-  | .sub _ _ al wl wr => sbsSpec a c al wl wr
+  | .sub _ _ al wl wr _ _ => sbsSpec a c al wl wr
 
 def totalOld : List Block → Nat
   | [] => 0
@@ -424,7 +424,7 @@ theorem runBlocksSbs_spec : ∀ (bs : List Block) (a c : Nat), (∀ b ∈ bs, b.
         simp only [Block.old, Block.new] at hr2
         simp [hr2, totalOld, totalNew, Block.old, Block.new, Nat.add_assoc]
       · simp [hs1, hs2, hunkSpec, blockSpec, Block.old, Block.new]
-    | sub m p al wl wr =>
+    | sub m p al wl wr rl rr =>
       obtain ⟨hv, hwl, hwr, hpl, hpr⟩ := hb
       by_cases h0 : m = 0 ∧ p = 0
       · obtain ⟨rfl, rfl⟩ := h0
@@ -435,7 +435,7 @@ theorem runBlocksSbs_spec : ∀ (bs : List Block) (a c : Nat), (∀ b ∈ bs, b.
           simp only [Block.old, Block.new, Nat.add_zero] at hr2
           simp [hr2, totalOld, totalNew, Block.old, Block.new]
         · simp [hs2, hunkSpec, blockSpec, sbsSpec, Block.old, Block.new]
-      · obtain ⟨rows1, hr1, hs1⟩ := sbsBlock_spec a c m p al wl wr hv hwl hwr hpl hpr
+      · obtain ⟨rows1, hr1, hs1⟩ := sbsBlock_spec a c m p al wl wr rl rr hv hwl hwr hpl hpr
           (by simp [Block.old] at ha; omega) (by simp [Block.new] at hc; omega)
         refine ⟨rows1 ++ rows2, ?_, ?_⟩
         · simp only [runBlocksSbs, h0, if_false, hr1]
